@@ -110,7 +110,9 @@ def main(argv=None) -> int:
     procs = []
     for i in range(nshards):
         part = os.path.join(tmpd, f'part{i}.json')
-        cmd = [sys.executable, '-W', 'ignore', '-m', 'pbt.runner', args.id, '--tier', args.tier,
+        # the last shard runs under `python -O` (assert statements stripped, __debug__ False): a library must not depend on them
+        opt = ['-O'] if (i == nshards - 1 and nshards > 1 and not os.environ.get('VERIF_NO_PYOPT')) else []
+        cmd = [sys.executable, *opt, '-W', 'ignore', '-m', 'pbt.runner', args.id, '--tier', args.tier,
                '--seed', str(args.seed), '--shard', str(i), '--nshards', str(nshards), '--partial', part]
         if args.only:
             cmd += ['--only', args.only]
@@ -135,6 +137,8 @@ def main(argv=None) -> int:
     violation = next((p['violation'] for p in good if p.get('violation')), None)
     herr = [p.get('harness_error') for p in good if p.get('harness_error')]
     ev = core.merge_evidence(mod, args.tier, args.seed, good, wall, violation)
+    ev['coverage']['process_environments'] = ['default interpreter flags'] + \
+        ([f'python -O for shard {nshards - 1} of {nshards}'] if nshards > 1 and not os.environ.get('VERIF_NO_PYOPT') else [])
     if not args.no_evidence and good:
         os.makedirs('evidence', exist_ok=True)
         with open(f'evidence/{pid}.json', 'w') as f:
